@@ -27,7 +27,7 @@ CHECKS = {
     "C04": ("fault_enumeration", "fault injection at the database boundary: per generated block, every key touched by the in-order run or by any speculative attempt x {persistent error, fail-1st, fail-2nd access}, result judged against the in-order stock-revm run on an identically planned faulty database (error index and payload, exact outcome/state prefix, read-back)",
             "Per block the (key x mode) space over the touched-key set is enumerated (capped at 14 keys per block, stale-only keys first); blocks, configurations and schedules are sampled. Persistent faults are judged by equality with the in-order run on the same faulty database, transient ones by 'absorbed or exact prefix at a transaction that in order accesses the key'.",
             "DESIGN.md §4 C04"),
-    "C05": ("exploration", "bounded-progress monitoring: coordinator parks made timeout-free (a lost wake-up or stranded transaction becomes a stable hang), stall watchdog deciding on logical conditions (no event, nobody inside a delay/DB call/execution, workers spinning) and classifying from a scheduler dump; injected database errors, latencies and panics; thread start/end balance and panic payload identity",
+    "C05": ("exploration", "bounded-progress monitoring: coordinator parks made timeout-free (a lost wake-up or stranded transaction becomes a stable hang), stall watchdog deciding on logical conditions (no event, nobody inside a delay/DB call/execution, every scheduler thread started and each one parked in its wait slot or spinning in next() with its own loop counter advancing), HEAD trace monitor (an attempt started at the commit head is never blocked by an estimate and never fails validation: no livelock on a stale speculative version), hang and livelock cut-offs and classifying from a scheduler dump; injected database errors, latencies and panics; thread start/end balance and panic payload identity",
             "Every execution must return without the stall timers; a stable no-progress state is diagnosed and reported with its cause. Liveness is restated as bounded progress on the schedules produced, it is not a liveness proof.",
             "DESIGN.md §4 C05, §2.3"),
     "C07": ("exploration", "differential runtime monitoring with the beneficiary in every role (plain, absent, empty, sender, contract with storage, near-overflow balance), per-commit-step comparison of the beneficiary account, VER check of the beneficiary read chain",
@@ -42,16 +42,16 @@ CHECKS = {
     "C06": ("exploration", "relational runtime monitoring: per block an orbit of configurations (workers 1..16, min_parallel_txs 0/n/n+1, force_sequential, execute / parallel_execute / fallback_sequential, perturbation profiles) for each of the four policy combinations; all runs of an orbit must agree on result, failing index, outcomes, bundle and read-back; with the policy inert additionally anchored to stock revm",
             "Determinism is checked as pairwise equality across an orbit of runs of the same block (8 configurations per orbit); with the delegated-account policies enabled stock revm is not a reference, so agreement between the parallel path, the sequential path and the replay path is the oracle. Held on the orbits observed.",
             "DESIGN.md §4 C06"),
-    "C10": ("exploration", "history + executable model (revm State): (a) the same stock EVM over State and over ParallelState interleaved with increments, drains, merges and bundle extractions over 1-4 blocks, comparing transitions, bundles and Database-interface reads after every operation; (b) reader threads filling the cache through the production view while the production commit handle applies real journal output (held at the fetch->insert window); (c) two consecutive blocks through the scheduler on one ParallelState",
+    "C10": ("exploration", "history + executable model (revm State): (a) the same stock EVM over State and over ParallelState interleaved with increments, drains, merges, revert detachments (pre-populated bundle without reverts) and bundle extractions over 1-4 blocks, comparing transitions, bundles and Database-interface reads after every operation; (b) reader threads filling the cache through the production view while the production commit handle applies real journal output (held at the fetch->insert window); (c) two consecutive blocks through the scheduler on one ParallelState",
             "ParallelState is driven by the same histories as revm's State and compared after every step; the concurrent part uses the production split view/commit handles under delays in the fetch->insert and status->clear windows. Held on the histories observed.",
             "DESIGN.md §4 C10"),
-    "C11": ("exploration", "differential runtime monitoring with test precompiles built on the public facade (reads + data-dependent writes, read-only, static mutator that ignores facade errors, state-dependent fatal) installed both in grevm and, through the same adapters, in the in-order stock-revm reference; in-attempt read consistency counters inside the precompiles",
+    "C11": ("exploration", "differential runtime monitoring with test precompiles built on the public facade (reads + data-dependent writes, read-only, static mutator that ignores facade errors, state-dependent fatal) installed both in grevm and, through the same adapters, in the in-order stock-revm reference; a second reference whose four precompiles are written by hand against Alloy's raw journal interface (no grevm facade/adapter: static refusal, sticky fault and halt mapping judged independently); in-attempt read consistency counters inside the precompiles",
             "Outcomes, per-step deltas and bundle of blocks that call the test precompiles (directly, nested, via STATICCALL, in reverting frames) are compared with the in-order run using the same adapters; counters inside the precompiles check repeated reads and read-your-writes within an attempt. Held on the executions observed.",
             "DESIGN.md §4 C11"),
     "C12": ("exploration", "differential runtime monitoring against two stock-revm oracles: an inspector that only watches create opcodes (no delegated-context create => guard-on must be bit-identical to stock) and an inspector that enforces the rule on stock revm at the opcode (halts the frame as not-activated); all forks, guard on/off",
             "The guard is compared with an independent ten-line statement of the rule executed on stock revm (inspector halting CREATE/CREATE2 in a delegated context) and with unmodified stock revm when no such create occurs. Held on the executions observed.",
             "DESIGN.md §4 C12"),
-    "C13": ("exploration", "runtime monitoring of policy invariants: (i) agreement of parallel/sequential/replay paths (C06 orbit), (ii) end-to-end invariant 'a sender whose block-start balance covers all its transactions is never skipped for lack of funds', (iii) an independent re-statement of the rule on stock revm (inspector recording surviving value-moving operations and the payer's balance before each) judged transaction by transaction up to the first violation",
+    "C13": ("exploration", "runtime monitoring of policy invariants: (i) agreement of parallel/sequential/replay paths (C06 orbit), (ii) end-to-end invariant 'a sender whose block-start balance covers all its transactions is never skipped for lack of funds', (iii) an independent re-statement of the rule on stock revm (inspector recording surviving value-moving operations and the payer's balance before each) judged transaction by transaction up to the first violation, (iv) the violated transaction itself compared (result, gas, refund, nonce, fee, authorisation effects, reward) with a twin run on stock revm whose root frame is turned into a REVERT at its very end",
             "Stock revm is not a full reference once the policy fires, so the oracle is layered: invariants over whole blocks plus a step-wise comparison that is exact up to and including the first transaction the rule turns into a charged revert. Held on the executions observed.",
             "DESIGN.md §4 C13"),
     "C14": ("exploration", "client-boundary history checking: 2-6 threads call execute / parallel_execute / fallback_sequential on one scheduler (some behind a barrier, some after the first return); exactly one call may run the block, the once-only gate may be passed once, final outcomes/bundle must equal the in-order run, a never-executed scheduler must return nothing",
